@@ -1,6 +1,6 @@
 //! C01 — in-circuit STARK verification agrees with native verification.
 //!
-//! Enumerated: for every configuration of the finite E4 catalogue (quick: the flagged cross-section, thorough: all),
+//! Enumerated: for every configuration of the finite E4 catalogue (both tiers: all; quick uses one fault kind per leaf),
 //! the honest (proof, public values, preprocessed commitment / common data) object and EVERY
 //! single-leaf value fault of its JSON tree: every field-element coefficient, digest word, PoW
 //! witness, public value ← leaf+1 mod p (thorough also ← 0 and ← neighbouring leaf of the same
@@ -133,13 +133,17 @@ fn main() {
         machinery_error(&format!("quick-tier names missing from the catalogue: {missing:?}"));
     }
     let filter = ctx.opt("config").map(|s| s.to_string());
-    let specs: Vec<_> = catalogue()
+    // Both tiers sweep the whole catalogue (quick with fewer fault kinds per leaf). The flagged
+    // cross-section goes first, so that a slow machine — every loop watches the budget — loses
+    // breadth at the tail, never the representative core.
+    let mut specs: Vec<_> = catalogue()
         .into_iter()
         .filter(|s| match &filter {
             Some(f) => s.name.contains(f.as_str()),
-            None => !ctx.quick() || s.quick,
+            None => true,
         })
         .collect();
+    specs.sort_by_key(|s| !s.quick);
     if specs.is_empty() {
         machinery_error("no configuration selected");
     }
@@ -154,7 +158,7 @@ fn main() {
     let n_specs = specs.len();
 
     for spec in specs {
-        if ctx.out_of_time() {
+        if ctx.out_of_time() || (ctx.quick() && ctx.used() > 0.85) {
             exhaustive = false;
             break;
         }
@@ -175,7 +179,11 @@ fn main() {
                 );
                 // the fault sweep is meaningless without an accepted baseline
                 eprintln!("[C01] {} HONEST: native {} circuit {}", fx.name, n.tag(), c.to_json());
-                per_config.push(json!({"config": fx.name, "desc": fx.desc, "honest": "native accept / circuit reject"}));
+                per_config.push(json!({"config": fx.name, "desc": fx.desc,
+                    "honest": "native accept / circuit reject (reported; fault sweep not applicable without an accepted baseline)",
+                    "native": n.to_json(), "circuit": c.to_json()}));
+                configs_done += 1;
+                fx.release_thread_engine();
                 continue;
             }
             _ => machinery_error(&format!(
